@@ -209,6 +209,8 @@ struct BlockingHandleInner<BS: BlockingCmdTaskSender> {
 impl<BS: BlockingCmdTaskSender> BlockingHandleInner<BS> {
     fn release_all(&self) {
         loop {
+            #[cfg(feature = "verif_hooks")]
+            crate::verif_hooks::sched_point("r_recv", 0);
             let cmd_task = match self.queue_receiver.try_recv() {
                 Ok(cmd_task) => cmd_task,
                 Err(err) => {
@@ -218,6 +220,8 @@ impl<BS: BlockingCmdTaskSender> BlockingHandleInner<BS> {
                     return;
                 }
             };
+            #[cfg(feature = "verif_hooks")]
+            crate::verif_hooks::sched_point("r_send", 0);
             if let Err(err) = self.blocking_task_sender.send(cmd_task) {
                 error!(
                     "failed to send task when releasing blocking queue: {:?}",
@@ -281,6 +285,8 @@ where
         // Add `running_cmd` anyway to hold this "lock".
         // TODO: this counter increment (reader lock) might starve the waiting side (writer lock).
         let counter = RefAutoCounter::new(&self.running_cmd);
+        #[cfg(feature = "verif_hooks")]
+        crate::verif_hooks::sched_point("s_load", 0);
         let BlockingState { blocking, term } = self.get_blocking_state();
         if !blocking {
             let blocking = match cmd_blocking_hint {
@@ -299,6 +305,8 @@ where
             };
             if !blocking {
                 let counter_task = CounterTask::new(cmd_task, self.running_cmd.clone());
+                #[cfg(feature = "verif_hooks")]
+                crate::verif_hooks::sched_point("s_inner", 0);
                 return self.inner_sender.send(counter_task).map_err(|err| {
                     err.map_task(|task| BlockingHintTask::new(task.into_inner(), cmd_blocking_hint))
                 });
@@ -312,6 +320,8 @@ where
         }
         drop(counter);
 
+        #[cfg(feature = "verif_hooks")]
+        crate::verif_hooks::sched_point("s_enq", 0);
         if let Err(err) = self.queue_sender.send(cmd_task) {
             let cmd_task = err.into_inner();
             cmd_task.set_resp_result(Ok(Resp::Error(
@@ -321,6 +331,8 @@ where
             return Err(SenderBackendError::Canceled);
         }
 
+        #[cfg(feature = "verif_hooks")]
+        crate::verif_hooks::sched_point("s_reload", 0);
         let BlockingState { blocking, .. } = self.get_blocking_state();
         if !blocking {
             self.blocking_handle_inner.release_all();
@@ -337,6 +349,8 @@ where
     type Sender = BS;
 
     fn blocking_done(&self) -> bool {
+        #[cfg(feature = "verif_hooks")]
+        crate::verif_hooks::sched_point("b_poll", 0);
         self.running_cmd.load(Ordering::SeqCst) == 0
     }
 
@@ -420,6 +434,8 @@ struct AutoCounter(Arc<AtomicI64>);
 
 impl AutoCounter {
     fn new(counter: Arc<AtomicI64>) -> Self {
+        #[cfg(feature = "verif_hooks")]
+        crate::verif_hooks::sched_point("s_inctask", 0);
         counter.fetch_add(1, Ordering::SeqCst);
         Self(counter)
     }
@@ -427,6 +443,8 @@ impl AutoCounter {
 
 impl Drop for AutoCounter {
     fn drop(&mut self) {
+        #[cfg(feature = "verif_hooks")]
+        crate::verif_hooks::sched_point("c_done", 0);
         // TODO: This order could be relaxed.
         self.0.fetch_sub(1, Ordering::SeqCst);
     }
@@ -436,6 +454,8 @@ struct RefAutoCounter<'a>(&'a AtomicI64);
 
 impl<'a> RefAutoCounter<'a> {
     fn new(counter: &'a AtomicI64) -> Self {
+        #[cfg(feature = "verif_hooks")]
+        crate::verif_hooks::sched_point("s_incref", 0);
         counter.fetch_add(1, Ordering::SeqCst);
         Self(counter)
     }
@@ -443,6 +463,8 @@ impl<'a> RefAutoCounter<'a> {
 
 impl<'a> Drop for RefAutoCounter<'a> {
     fn drop(&mut self) {
+        #[cfg(feature = "verif_hooks")]
+        crate::verif_hooks::sched_point("s_decref", 0);
         // TODO: This order could be relaxed.
         self.0.fetch_sub(1, Ordering::SeqCst);
     }
